@@ -174,7 +174,10 @@ def validate_traces(module, cfg, traces, shards=None, timeout=1800, extra_top=No
             sub = os.path.join(wd, "s%d" % k)
             os.makedirs(sub)
             _copy_specs(sub)
-            return run_tlc(module, cfg, workdir=sub, workers=1, timeout=timeout, env={"TRACE_FILE": files[k]})
+            # (up to 16 of these JVMs run side by side: a smaller heap each keeps a loaded machine out of memory trouble)
+            return run_tlc(module, cfg, workdir=sub, workers=1, timeout=timeout,
+                           env={"TRACE_FILE": files[k],
+                                "JAVA_TOOL_OPTIONS": "-Xss256m " + ("-Xmx3g" if os.path.getsize(files[k]) > 40_000_000 else "-Xmx2g")})
 
         with ThreadPoolExecutor(max_workers=NCPU) as ex:
             results = list(ex.map(one, range(shards)))
